@@ -8,6 +8,7 @@ Local Open Scope N_scope.
 
 Inductive input :=
 | IMem (ops : list mop)                          (* MemorySequencer, sequential critical sections *)
+| IMemFo (ops1 : list mop) (k : N) (ops2 : list mop)  (* leader change: old leader ops1; fresh sequencer: SetMax k, ops2 *)
 | IEtcd (n : nat) (sched : list (nat * act))     (* n EtcdSequencers on one fake store, KeysAPI calls interleaved *)
 | ISnow (nids : list N) (calls : list (nat * N)) (* SnowflakeSequencers: (node index, count) *)
 | IVol (sched : list vstep)                      (* Topology.NextVolumeId + heartbeats *)
@@ -49,7 +50,7 @@ Definition pc_code (q : pc) : N :=
   | MaxGet Beat _ => 7 | MaxCreate Beat _ => 8 | MaxSet Beat _ _ => 9
   end.
 Definition etcd_fin (s : est) : list N :=
-  (match store s with Some v => v + 1 | None => 0 end) ::
+  (match store s with Some v => [1; v] | None => [0; 0] end) ++
   flat_map (fun m => [cur m; mx m; file m; pc_code (p m)]) (masters s).
 
 (* ---- snowflake: the clock readings are taken from the implementation's ids ---- *)
@@ -112,12 +113,39 @@ Fixpoint sum_counts (l : list ev) : N :=
   | _ :: l' => sum_counts l'
   end.
 
+(* ---- narrowed triggers ---- *)
+Definition actor_of (e : ev) : nat := match e with Ret m _ _ => m | Max m _ => m end.
+Fixpoint pairs_okb (f : ev -> ev -> bool) (tr : list ev) : bool :=
+  match tr with
+  | [] => true
+  | e :: tr' => forallb (f e) tr' && pairs_okb f tr'
+  end.
+(* implementation events at the positions whose model event satisfies f *)
+Fixpoint sel (f : mev -> bool) (pm : list (option mev)) (pi : list (option ev)) : list ev :=
+  match pm, pi with
+  | Some me :: pm', Some e :: pi' => if f me then e :: sel f pm' pi' else sel f pm' pi'
+  | _ :: pm', _ :: pi' => sel f pm' pi'
+  | _, _ => []
+  end.
+(* snowflake: the ids themselves (every count projected to at most 1) *)
+Definition id_only (e : ev) : ev := match e with Ret m s c => Ret m s (N.min c 1) | _ => e end.
+(* pairs of ids of one node, or of two nodes with different node ids *)
+Definition sf_pair_okb (nids : list N) (e1 e2 : ev) : bool :=
+  if Nat.eqb (actor_of e1) (actor_of e2) || negb (nth (actor_of e1) nids 0 =? nth (actor_of e2) nids 0)
+  then ev_okb e1 e2 else true.
+
 Definition check_snow (nids : list N) (calls : list (nat * N)) (impl : list (option ev)) : outcome :=
   let scalls := sf_calls calls impl in
   let '(_, outs) := sf_run nids (sf_init nids) scalls in
   {| o_corr := all2 oev_eqb outs impl && Nat.eqb (length calls) (length impl);
      o_prop := trace_okb_fast (somes impl);
-     o_trig := if sf_count_trigger scalls then Some 1 else None;
+     (* finding 5 (two nodes with one node id) exempts only pairs across such nodes;
+        finding 1 (count > 1) still requires the ids themselves to be distinct *)
+     o_trig := if sf_collision_trigger nids
+               then (if pairs_okb (sf_pair_okb nids) (map id_only (somes impl)) then Some 5 else None)
+               else if sf_count_trigger scalls
+               then (if trace_okb_fast (map id_only (somes impl)) then Some 1 else None)
+               else None;
      o_nontrivial := Nat.leb 2 (nrets impl) |}.
 
 Fixpoint undelta (x : N) (ds : list N) : list N :=
@@ -130,16 +158,42 @@ Definition check (c : case) : outcome :=
   match inp c with
   | IMem ops =>
       let '(cf, outs) := mem_run mem_init ops in
-      {| o_corr := all2 oev_eqb outs (out c) && all2 N.eqb [cf] (fin c);
-         o_prop := if mem_fits mem_init ops then trace_okb (somes (out c)) else true;
-         o_trig := None;
+      (* fin = [final counter; counter right after the first step (with assign: read while
+         SendHeartbeat is between Sequence.SetMax and the registration of the heartbeat's
+         volumes); 1 if volume 1 was already registered at that moment] *)
+      let c1 := match ops with o :: _ => fst (mem_step mem_init o) | [] => mem_init end in
+      let len := mem_fit_len mem_init ops in
+      {| o_corr := all2 oev_eqb outs (out c) && all2 N.eqb [cf; c1; 0] (fin c);
+         o_prop := trace_okb (somes (out c));
+         (* finding 3, per step: everything up to the first wrapping addition must be fine *)
+         o_trig := if negb (Nat.eqb len (length ops)) && trace_okb (somes (firstn len (out c))) then Some 3 else None;
+         o_nontrivial := Nat.leb 2 (nrets (out c)) |}
+  | IMemFo ops1 k ops2 =>
+      let '(c1f, outs1) := mem_run mem_init ops1 in
+      let '(c2f, outs2) := mem_run mem_init (MSetMax k :: ops2) in
+      let tr1 := somes (firstn (length ops1) (out c)) in
+      let tr2 := somes (skipn (length ops1) (out c)) in
+      {| o_corr := all2 oev_eqb (outs1 ++ map (option_map (relabel 1)) outs2) (out c) && all2 N.eqb [c1f; c2f] (fin c);
+         o_prop := trace_okb (somes (out c));
+         (* finding 4, per range: only ranges of the old leader with a key above k are exempt *)
+         o_trig := if fo_trigger tr1 k && trace_okb tr1 &&
+                      trace_okb (filter (fun e => negb (fo_unwritten k e)) tr1 ++ tr2)
+                   then Some 4 else None;
          o_nontrivial := Nat.leb 2 (nrets (out c)) |}
   | IEtcd n sched =>
       let '(sf, outs) := erun (einit n) sched in
-      let tr := somes outs in
+      let len := etcd_fit_len n sched in
+      let pm := firstn len outs in          (* the run up to the first wrapping uint64 operation *)
+      let pi := firstn len (out c) in
       {| o_corr := all2 oev_eqb (map (option_map vis) outs) (out c) && all2 N.eqb (etcd_fin sf) (fin c);
          o_prop := trace_okb (somes (out c));
-         o_trig := if etcd_err_trigger tr then Some 2 else if etcd_setmax_trigger tr then Some 0 else None;
+         (* per pair / per step (c13_etcd_prefix): up to the first wrap, the events that are
+            neither an error return (finding 2) nor an unsafe SetMax (finding 0) must satisfy
+            the property whatever else happened in the run *)
+         o_trig := if negb (trace_okb (sel untagged pm pi)) then None
+                   else if negb (trace_okb (somes pi))
+                   then (if trace_okb (sel (fun e => negb (is_reterr e)) pm pi) then Some 2 else Some 0)
+                   else if negb (Nat.eqb len (length sched)) then Some 3 else None;
          o_nontrivial := Nat.leb 2 (nrets (out c)) |}
   | ISnow nids calls => check_snow nids calls (out c)
   | ISnowBurst nid first deltas =>
